@@ -98,6 +98,21 @@ extern "C" int pthread_spin_lock(pthread_spinlock_t *l)
 	}
 	return real(l);
 }
+// the unchanged library never uses trylock on the writer lock; a change that does (e.g. "take it if free, else go on") must not slip past the
+// yield points: the caller parks at `acq` like a locker, then the real trylock decides - if it fails the thread goes on WITHOUT the lock and is
+// next seen at `put` while another thread holds it, which the model (a sender spins at acq until the lock is free) contradicts
+extern "C" int pthread_spin_trylock(pthread_spinlock_t *l)
+{
+	static spinfn realtry((spinfn)dlsym(RTLD_NEXT, "pthread_spin_trylock"));
+	if (tl_lt && is_con_spl(l))
+	{
+		if (g_det) park(tl_lt, "acq");
+		const int r(realtry(l));
+		if (r == 0) g_holder.store(tl_lt->id, std::memory_order_relaxed);
+		return r;
+	}
+	return realtry(l);
+}
 extern "C" int pthread_spin_unlock(pthread_spinlock_t *l)
 {
 	static spinfn real((spinfn)dlsym(RTLD_NEXT, "pthread_spin_unlock"));
@@ -403,8 +418,11 @@ static void lt_main(LT *lt)
 			else if (w.pm != pm_pipeline && !lt->pids[0].empty() && (lt->pids[0][lt->pids[0].size() - 1] & 1))
 			{
 				// the non-owning overload (destroy = false): the caller keeps the message; synchronous in the lock-based models
+				// ... every other one of them through the by-reference overload Session::send(Message&) -> FIXWriter::write(Message&)
 				std::unique_ptr<Message> own(mk_order(lt->pids[0]));
-				r = w.sess->send(own.get(), false, 0, false) ? 1 : 0;
+				const size_t n(lt->pids[0].size());
+				if (n >= 2 && (lt->pids[0][n - 2] & 1)) r = w.sess->send(*own, 0, false) ? 1 : 0;
+				else r = w.sess->send(own.get(), false, 0, false) ? 1 : 0;
 			}
 			else
 				r = w.sess->send(mk_order(lt->pids[0]), true, 0, false) ? 1 : 0;
@@ -514,7 +532,8 @@ static std::string do_free(const std::string& line)
 					{
 						// the non-owning overload (destroy = false), message freed by the caller afterwards
 						std::unique_ptr<Message> own(ms[k][0]);
-						if (!w.sess->send(own.get(), false, 0, false)) ++failed;
+						if ((t + k) & 2) { if (!w.sess->send(*own, 0, false)) ++failed; }	// by-reference overload
+						else if (!w.sess->send(own.get(), false, 0, false)) ++failed;
 					}
 					else if (!w.sess->send(ms[k][0], true, 0, false)) ++failed;
 				}
